@@ -352,4 +352,72 @@ theorem dead_time_contiguous (w : Wave) (hdt : 0 < w.dt) (k : Nat)
     omega
   · simp at hri
 
+/-! ## Pixel time, line time, duration = the timing the info wave encodes -/
+
+/-- Pixel time: for a wave that starts with `lead` discarded samples followed by a pixel of `k`
+    consecutive used samples, `pixel_time_seconds·10⁹ = k·dt`. -/
+theorem pixel_time_spec (w : Wave) (lead k : Nat) (hk : 0 < k) (tail : List Nat)
+    (hiw : w.iw = List.replicate lead 0 ++ (pixelCodes k ++ tail)) :
+    w.pixelTimeNs = some (k * w.dt) := by
+  unfold Wave.pixelTimeNs
+  rw [hiw, firstPixelIdx_regular lead k hk tail]
+  simp only [Option.map_some, Option.some.injEq]
+  congr 1; omega
+
+example : (⟨1000, 10, [0, 0, 1, 2, 1, 2, 1, 2, 0, 0, 0, 1, 2]⟩ : Wave).pixelTimeNs = some 20 := by decide
+
+/-- Line time: when the first line is regular (`FirstLine`: lead-in, `P·k` consecutive used samples,
+    `dead` discarded samples, then the next line begins) the line time is `(P·k + dead)·dt`, and this
+    is exactly the distance `t0(1) − t0(0)` between the starts of the first two line ranges
+    (`line_range_bounds`: `t0(l) = usedTs[l·P·k]`). -/
+theorem line_time_spec (w : Wave) (lead k P dead : Nat) (more rest : List Nat) (c : Nat)
+    (h : FirstLine w lead k P dead more rest c) :
+    w.lineTimeNs P = some ((P * k + dead : Nat) * w.dt) ∧
+    w.usedTs.getD (1 * P * k) 0 - w.usedTs.getD (0 * P * k) 0 = (P * k + dead : Nat) * w.dt := by
+  have hfp : firstPixelIdx w.iw = some (lead, lead + k - 1) := by
+    rw [h.iw, List.append_assoc (pixelCodes k)]
+    exact firstPixelIdx_regular lead k h.hk _
+  have hPk : 0 < P * k := Nat.mul_pos h.hP h.hk
+  constructor
+  · unfold Wave.lineTimeNs
+    rw [hfp]
+    simp only [Option.map_some, Option.some.injEq]
+    have e1 : ((lead + k - 1 : Nat) : Int) - (lead : Int) + 1 = (k : Int) := by have := h.hk; omega
+    rw [e1]
+    have e2 : ((P : Int) * (k : Int)).toNat = P * k := by
+      rw [← Int.natCast_mul]; exact Int.toNat_natCast _
+    rw [e2]
+    have hdrop : w.iw.drop (lead + P * k) = List.replicate dead 0 ++ c :: rest := by
+      rw [h.iw, ← List.append_assoc]
+      exact List.drop_left' (by simp only [List.length_append, List.length_replicate]; have := h.len; simp only [List.length_append] at this; omega)
+    rw [hdrop, if_neg (by simp)]
+    rw [argmaxBool_append _ _ _ _ (by intro x hx; rw [(List.mem_replicate.mp hx).2]; rfl)
+      (by simpa using h.next)]
+    simp only [List.length_replicate]
+    rw [← Int.natCast_mul, ← Int.natCast_add]
+  · rw [usedTs_regular w lead k P dead more rest c h]
+    have hl : (times (w.start + lead * w.dt) w.dt (P * k)).length = P * k := times_length _ _ _
+    have g1 : ∀ (X Y : List Int) (y : Int), (X ++ y :: Y).getD (1 * X.length) 0 = y := by
+      intro X Y y; simp [List.getD_eq_getElem?_getD]
+    have g0 : (times (w.start + lead * w.dt) w.dt (P * k) ++
+        (w.start + lead * w.dt + (P * k : Nat) * w.dt + dead * w.dt) ::
+          usedOf rest (times (w.start + lead * w.dt + (P * k : Nat) * w.dt + dead * w.dt + w.dt) w.dt rest.length)).getD (0 * P * k) 0
+        = w.start + lead * w.dt := by
+      match hn : P * k, hPk with
+      | n + 1, _ => simp [times]
+    have hidx : 1 * P * k = 1 * (times (w.start + lead * w.dt) w.dt (P * k)).length := by
+      rw [hl]; simp
+    rw [g0, hidx, g1]
+    rw [Int.natCast_add, Int.add_mul]
+    omega
+
+example : (⟨1000, 10, [0, 0, 1, 2, 1, 2, 1, 2, 0, 0, 0, 1, 2]⟩ : Wave).lineTimeNs 3 = some 90 := by decide
+example : FirstLine ⟨1000, 10, [0, 0, 1, 2, 1, 2, 1, 2, 0, 0, 0, 1, 2]⟩ 2 2 3 3 [1, 2, 1, 2] [2] 1 :=
+  ⟨by decide, by decide, by decide, by decide, by decide, by decide⟩
+
+/-- Duration: line time × number of image lines, the image having one pixel per boundary code
+    and `⌈#pixels / P⌉` lines (C02's `kymo_placement`). -/
+theorem duration_spec (w : Wave) (P : Nat) :
+    w.durationNs P = (w.lineTimeNs P).map fun (lt : Int) => lt * ((numBlocks w.numBoundaries P : Nat) : Int) := rfl
+
 end Verif.C03
